@@ -3,9 +3,11 @@
 usage: keepmutant.py <PROP> <m-k> "<what it needs in order to manifest>" """
 import sys, os, json, re, shutil, glob
 prop, mk, needs = sys.argv[1], sys.argv[2], sys.argv[3]
-src = f'/tmp/mut/out/{prop}/{mk}'
-res = f'/tmp/mut/results/{prop}_{mk}'
-dst = f'/verif/seeded/{prop}-{mk}'
+rnd = sys.argv[4] if len(sys.argv) > 4 else ''   # '' = round 1, 'r2' = round 2
+history = sys.argv[5] if len(sys.argv) > 5 else ''
+src = f'/tmp/mut/out{"2" if rnd else ""}/{prop}/{mk}'
+res = f'/tmp/mut/results/{rnd + "_" if rnd else ""}{prop}_{mk}'
+dst = f'/verif/seeded/{prop}{rnd}-{mk}'
 os.makedirs(dst, exist_ok=True)
 for f in ['patch.diff', 'demo_test.go', 'notes.md']:
     shutil.copy(os.path.join(src, f), os.path.join(dst, f))
@@ -17,7 +19,9 @@ def tail(p, n=3):
     except Exception:
         return []
 caught = {}
+checks_run = []
 for f in sorted(glob.glob(res + '/check_*.txt')):
+    checks_run.append(re.search(r'check_(C\d+)\.txt', f).group(1))
     cid = re.search(r'check_(C\d+)\.txt', f).group(1)
     txt = open(f).read()
     nv = len(re.findall(r'^VIOLATION', txt, re.M))
@@ -29,7 +33,7 @@ demo = open(os.path.join(dst, 'demo_test.go.txt')).read()
 pkg = re.search(r'^package (\w+)', demo, re.M).group(1)
 meta = {
     'property': prop,
-    'seeded_change': f'{prop}-{mk}',
+    'seeded_change': f'{prop}{rnd}-{mk}',
     'written_by': 'independent sub-agent given only the property text and a scratch worktree',
     'files_changed': sorted(set(re.findall(r'^\+\+\+ b/(\S+)', open(os.path.join(dst, 'patch.diff')).read(), re.M))),
     'needs_in_order_to_manifest': needs,
@@ -44,10 +48,12 @@ meta = {
         'git apply patch.diff in a scratch worktree of /repo HEAD',
         'go test -vet=off -count=1 -run <demo tests>   (pristine: pass; with change: fail)',
         'go test -vet=off -count=1 ./...               (with change: pass)',
-        'VERIF_REPO=<scratch worktree> VERIF_OUT=<scratch dir> /verif/check C01..C20 quick',
+        'VERIF_REPO=<scratch worktree> VERIF_OUT=<scratch dir> /verif/check <id> quick   for id in ' + ' '.join(checks_run),
     ],
+    'quick_checks_run': checks_run,
+    'history': history,
     'caught_by_quick_checks': caught,
     'caught': bool(caught),
 }
 json.dump(meta, open(os.path.join(dst, 'meta.json'), 'w'), indent=1)
-print(dst, 'caught by', sorted(caught))
+print(dst, 'caught by', sorted(caught), 'of', len(checks_run), 'run')
